@@ -75,6 +75,25 @@ def resolve (e : Str) : Str :=
   | some (ident, fargs) => locateEncode ident ++ fargs
   | none => locateEncode e
 
+/-! ### the second role of `DEFAULT_ESCAPES`: which names of a filter list are demanded from the context
+
+`Expression.undeclared_identifiers`, `TextTag/DefTag/BlockTag.undeclared_identifiers` (mako/parsetree.py) take the
+identifiers Python's parser finds in the filter list (`h` → `h`, `decode.utf8` → `decode`, `f(1)` → `f`) and
+subtract the keys of `DEFAULT_ESCAPES`; what is left is looked up in the context when the template renders
+(`NameError` under `strict_undefined=True` when absent). -/
+
+/-- `name in filters.DEFAULT_ESCAPES` -/
+def isEscapeKey (name : Str) : Bool := defaultEscapes.any (fun kv => kv.1 == name)
+
+/-- `filter_args.undeclared_identifiers.difference(filters.DEFAULT_ESCAPES.keys())` (as a list, order kept) -/
+def contextNames (idents : List Str) : List Str := idents.filter (fun i => !isEscapeKey i)
+
+def isIdentChar (c : Char) : Bool := c.isAlphanum || c == '_'
+
+/-- the leading (ASCII) identifier of a filter entry: the name Python's parser reports for `name`,
+`name.attr…` and `name(args)` -/
+def headIdent (e : Str) : Str := e.takeWhile isIdentChar
+
 /-- the list the `for` loop of `create_filter_callable` iterates over -/
 def effectiveArgs (args : List Str) (isExpr : Bool) (cfg : Cfg) : List Str :=
   if args.contains nName then args
